@@ -143,7 +143,9 @@ def extra(tier, seed, deadline):
         ch = run_contracts(CROSSHAIR_CONTRACTS)
         for cx in ch["counterexamples"]:
             rep.inconclusive.append("CrossHair cross-check disagrees (counterexample on the real function): %s" % cx)
+    spot = _spot_checks(real_fn(), tier, seed, rep)
     d = _extra_dict(rep)
+    d["coverage"]["large_n_spot_checks"] = spot
     if ch is not None:
         d["coverage"]["crosshair_cross_check"] = {k: v for k, v in ch.items() if k != "raw"}
     return d
@@ -175,6 +177,41 @@ def _succ_ok_k2(index: int) -> bool:
     b = get_combination_at_sorted_index(index + 1, n, k)
     return a[0] > a[1] >= 0 and a[0] < n and a < b
 '''
+
+
+def _spot_checks(f, tier, seed, rep):
+    """concrete calls for n far above the enumeration bound, at the indices where the incremental arithmetic changes
+    regime (block starts C(c,k) and their neighbours, first and last indices) plus seeded random indices; compared with
+    an independent greedy unranking.  Not a solver verdict: a complement to the unbounded lemmas for the case that the
+    function's shape is no longer the one the lemmas were cut from."""
+    import math
+    import random
+    from .c15_lemmas import _reference_unrank
+    rnd = random.Random(seed + 15)
+    ns = (65, 66, 130, 700) if tier == "quick" else (65, 66, 130, 700, 3000)
+    calls, t0 = 0, __import__("time").time()
+    for n in ns:
+        for k in (2, 3):
+            C = math.comb(n, k)
+            idx = set(range(0, min(C, 40))) | set(range(max(0, C - 5), C))
+            for c in range(k, n + 1):
+                b = math.comb(c, k)
+                idx.update(x for x in (b - 1, b, b + 1, b + c // 7) if 0 <= x < C)
+            idx.update(rnd.randrange(C) for _ in range(150))
+            for i in sorted(idx):
+                calls += 1
+                try:
+                    got = tuple(int(x) for x in f(i, n, k))
+                except Exception as ex:
+                    got = "raises %s" % type(ex).__name__
+                want = _reference_unrank(i, n, k)
+                if got != want:
+                    rep.violations.append(dict(label="combination unranking differs from the combinatorial number system",
+                                               key="unranking wrong for large n", model=dict(index=i, n=n, k=k),
+                                               detail="f(%d, %d, %d) = %s, expected %s" % (i, n, k, got, want),
+                                               cfg=dict(name="spot", h="lemma_replay"), confirmed=True, notes=[]))
+                    return dict(calls=calls, n=list(ns), failed=dict(index=i, n=n, k=k))
+    return dict(calls=calls, n=list(ns), failed=None, wall_s=round(__import__("time").time() - t0, 1))
 
 
 def _extra_dict(rep):
